@@ -16,11 +16,11 @@ Inductive const := CStr (s : string) | CInt (z : Z).
 
 Record ctx := {
   c_consts : list const; c_bpc : Z; c_names : list string; c_lfuncs : list string;
-  c_props : list string; c_tell : bool }.
+  c_props : list string; c_globals : list string; c_tell : bool }.
 Definition set_bpc (c : ctx) (b : Z) : ctx :=
-  Build_ctx (c_consts c) b (c_names c) (c_lfuncs c) (c_props c) (c_tell c).
+  Build_ctx (c_consts c) b (c_names c) (c_lfuncs c) (c_props c) (c_globals c) (c_tell c).
 Definition set_tell (c : ctx) (t : bool) : ctx :=
-  Build_ctx (c_consts c) (c_bpc c) (c_names c) (c_lfuncs c) (c_props c) t.
+  Build_ctx (c_consts c) (c_bpc c) (c_names c) (c_lfuncs c) (c_props c) (c_globals c) t.
 
 Record mstate := { m_stack : list node; m_fn : fndef; m_ctx : ctx }.      (* stack: head = top *)
 
@@ -235,7 +235,7 @@ Definition process (oc : opclass) (p1 p2 : Z) (index : Z) (m : mstate) : result 
   | OVariable =>
     let! nm := nth_name names p1 in
     let gv := global_of nm index in
-    if mem_node gv (f_globals (m_fn m)) then Ok (push m gv) else Ok (push m (local_of nm index))
+    if mem_node gv (f_globals (m_fn m)) || mem_str nm (c_globals (m_ctx m)) then Ok (push m gv) else Ok (push m (local_of nm index))
   | OGlobalVariable =>
     let! nm := nth_name names p1 in
     let gv := global_of nm index in
